@@ -37,6 +37,11 @@ type ATEpisode struct {
 	Redeliver int `json:"redeliver,omitempty"`
 	// CfgSwitch: configuration in force during phase two (C08: redeploy between the phases)
 	CfgSwitch *ATCfg `json:"cfg_switch,omitempty"`
+	// StopOnErr: the business returns the first statement / commit error (the
+	// global transaction is then rolled back by the TM)
+	StopOnErr bool `json:"stop_on_err,omitempty"`
+	// Fault describes the single injected fault of a C02 episode (informational + oracle)
+	Fault string `json:"fault,omitempty"`
 }
 
 type ATPlan struct {
@@ -161,8 +166,26 @@ func (r *atRun) safeExec(ctx context.Context, e execer, st ATStmt) (res sql.Resu
 	return e.ExecContext(ctx, st.SQL, goArgs(st.Args)...)
 }
 
-func (r *atRun) runBusiness(ctx context.Context, ep *ATEpisode, out *[]stmtRes) {
+func (r *atRun) runBusiness(ctx context.Context, ep *ATEpisode, out *[]stmtRes) (first error) {
+	defer func() {
+		for _, sr := range *out {
+			if sr.Err != nil && first == nil {
+				first = sr.Err
+			}
+		}
+	}()
 	for bi, br := range ep.Branches {
+		if ep.StopOnErr {
+			stop := false
+			for _, sr := range *out {
+				if sr.Err != nil {
+					stop = true
+				}
+			}
+			if stop {
+				return
+			}
+		}
 		if br.Explicit {
 			tx, err := r.db.BeginTx(ctx, nil)
 			if err != nil {
@@ -204,6 +227,7 @@ func (r *atRun) runBusiness(ctx context.Context, ep *ATEpisode, out *[]stmtRes) 
 			r.w.Sim.Logf("APP branch %d stmt %d (autocommit) -> affected=%d err=%v", bi, si, sr.Affected, err)
 		}
 	}
+	return nil
 }
 
 var errBusiness = errors.New("business decided to roll back")
@@ -250,7 +274,10 @@ func (r *atRun) runEpisode(idx int, ep *ATEpisode) *episodeObs {
 		}()
 		o.gerr = tm.WithGlobalTx(context.Background(), &tm.GtxConfig{Name: fmt.Sprintf("at-%d", idx), Timeout: 60 * time.Second}, func(ctx context.Context) error {
 			o.xid = tm.GetXID(ctx)
-			r.runBusiness(ctx, ep, &o.stmts)
+			berr := r.runBusiness(ctx, ep, &o.stmts)
+			if ep.StopOnErr && berr != nil {
+				return berr
+			}
 			if len(ep.Foreign) > 0 {
 				// a foreign writer (no global transaction) touches rows after the local commits
 				sim.Park("at-foreign", "foreign writer")
@@ -956,6 +983,7 @@ func genATPlan(seed uint64, tier, mode string) *ATPlan {
 	p.Opts.MultiRow = g.Prob(0.4)
 	p.Opts.Upsert = g.Prob(0.3)
 	p.Opts.MultiUpsert = g.Prob(0.15)
+	p.Opts.ShuffleCols = g.Prob(0.4)
 	p.Opts.OrderLimit = g.Prob(0.2)
 	if g.Prob(0.5) {
 		p.Opts.WhereForms = pickSome(g, []string{"pk", "in", "between", "and", "or", "paren", "nonpk"}, 1)
